@@ -3,9 +3,9 @@
 PROPS = {
     "C04": {
         "families": [
-            fam("c04.match", 3000, 40000),
-            fam("c04.parse", 4000, 60000),
-            fam("c04.textmatch", 3000, 40000),
+            fam("c04.match", 3000, 25000),
+            fam("c04.parse", 4000, 40000),
+            fam("c04.textmatch", 3000, 25000),
         ],
         "defects": ["D3"],
         "rule": "op lines generated from VERIF_SEED: c04.match = rule from the modifier grammar x request aimed at its values "
@@ -15,9 +15,9 @@ PROPS = {
     },
     "C12": {
         "families": [
-            fam("c12.newrule", 4000, 60000),
-            fam("c12.crash", 150, 3000),
-            fam("c12.inert", 100, 2000),
+            fam("c12.newrule", 4000, 40000),
+            fam("c12.crash", 150, 1000),
+            fam("c12.inert", 100, 600),
         ],
         "defects": ["D2"],
         "rule": "c12.newrule = rules.NewRule vs the model on grammar lines, hosts/cosmetic/comment lines and real-list lines with byte "
